@@ -13,6 +13,7 @@ from .commons import (
     DATE_FMT_DEFAULT,
     xml2dict,
     get_format,
+    in_scale,
 )
 
 
@@ -157,7 +158,9 @@ def collect_metadata(path, measure_set):
     meta = {
         "TIME_SYSTEM": measure_set.start.scale.name,
         "START_TIME": measure_set.start.strftime(DATE_FMT_DEFAULT),
-        "STOP_TIME": measure_set.stop.strftime(DATE_FMT_DEFAULT),
+        "STOP_TIME": in_scale(measure_set.stop, measure_set.start.scale).strftime(
+            DATE_FMT_DEFAULT
+        ),
     }
 
     i = 0
@@ -235,7 +238,7 @@ def _dumps_kvn(data, **kwargs):
             txt.append(
                 "{name:20} = {date:{DATE_FMT_DEFAULT}} {value:{value_fmt}}".format(
                     name=name,
-                    date=m.date,
+                    date=in_scale(m.date, measure_set.start.scale),
                     DATE_FMT_DEFAULT=DATE_FMT_DEFAULT,
                     value=value,
                     value_fmt=value_fmt,
@@ -273,7 +276,9 @@ def _dumps_xml(data, **kwargs):
             obs = ET.SubElement(data_tag, "observation")
 
             epoch = ET.SubElement(obs, "EPOCH")
-            epoch.text = m.date.strftime(DATE_FMT_DEFAULT)
+            epoch.text = in_scale(m.date, measure_set.start.scale).strftime(
+                DATE_FMT_DEFAULT
+            )
             name, value, value_fmt = encode_measurement(m)
 
             field = ET.SubElement(obs, name)
